@@ -315,7 +315,7 @@ func runProgs(cfg *Config, flavour string) *Report {
 	if cfg.Only < 0 && (flavour == "C03" || flavour == "C19") {
 		directedTake(rep, flavour)
 	}
-	if cfg.Only < 0 && flavour == "C13" {
+	if cfg.Only < 0 && (flavour == "C13" || flavour == "C19") {
 		directedMini(rep)
 	}
 	iso := isolate(flavour, cfg, len(cases), 40, 300*time.Millisecond)
